@@ -4,7 +4,9 @@ import (
 	"fmt"
 	"go/token"
 	"go/types"
+	"os"
 	"regexp/syntax"
+	"sort"
 	"strings"
 
 	"golang.org/x/tools/go/ssa"
@@ -17,8 +19,9 @@ func init() {
 		ID: "C18",
 		Decides: "from the check-only entry point no function that issues a state-changing request or writes a layout is reachable in the reference graph once call sites behind the 'action is not check' edge are removed, and the action value is passed unchanged down the chain; " +
 			"every allow/deny expression is compiled from one filter at a time into a pattern that, instantiated and parsed with regexp/syntax, is anchored at both ends in every alternative; both lists are consulted; " +
-			"the backup copy takes the target as its source, sits behind the backup-configured test and every path from that test to the overwriting copy passes it.",
-		NotCovered: "the full before/after comparison of registries, platform resolution and its cache (seeded change C18-2 is value-level and not detected), tag movement between runs, template expansion.",
+			"the backup copy takes the target as its source, sits behind the backup-configured test and every path from that test to the overwriting copy passes it; " +
+			"every entry stored in a process-wide cache of the sync tool is keyed by a value computed from every by-value parameter the cached value is computed from (the platform digest cache cannot answer for another platform).",
+		NotCovered: "the full before/after comparison of registries, platform resolution itself, tag movement between runs, template expansion.",
 		Run:        runC18,
 	})
 }
@@ -27,6 +30,7 @@ func runC18(p *core.Prog, r *core.Report) {
 	c18R1(p, r)
 	c18R2(p, r)
 	c18R3(p, r)
+	c18R4(p, r)
 }
 
 func c18R1(p *core.Prog, r *core.Report) {
@@ -445,4 +449,152 @@ func c18R3(p *core.Prog, r *core.Report) {
 		}
 	}
 	r.Check(ok, rule, fname, "backup precedes overwrite", p.Pos(backup.Pos()), "from the edge on which a backup is wanted, the overwriting copy is only reachable through the backup copy (error returns aside)")
+}
+
+// ---------------------------------------------------------------------------------------------
+// R4 process-wide caches are keyed by everything the cached value depends on
+
+// globalMap reports the package-level variable a map value is loaded from (directly or as a field
+// of a package-level struct).
+func globalMap(v ssa.Value) *ssa.Global {
+	for i := 0; i < 6 && v != nil; i++ {
+		switch x := v.(type) {
+		case *ssa.UnOp:
+			if x.Op != token.MUL {
+				return nil
+			}
+			v = x.X
+		case *ssa.FieldAddr:
+			v = x.X
+		case *ssa.Global:
+			return x
+		default:
+			return nil
+		}
+	}
+	return nil
+}
+
+// valueParam: parameters that carry request data by value (strings, numbers, value structs such as
+// ref.Ref or platform.Platform, slices of those); contexts, clients, option pointers, interfaces and
+// functions are not inputs a cache has to distinguish.
+func valueParam(t types.Type) bool {
+	switch u := t.Underlying().(type) {
+	case *types.Basic:
+		return true
+	case *types.Struct:
+		return true
+	case *types.Slice:
+		return valueParam(u.Elem())
+	case *types.Array:
+		return valueParam(u.Elem())
+	}
+	return false
+}
+
+func paramIndex(fn *ssa.Function, name string) int {
+	for i, pr := range fn.Params {
+		if pr.Name() == name {
+			return i
+		}
+	}
+	return -1
+}
+
+// coveredAtCallers: at every call site of fn, some argument bound to a key-feeding parameter is
+// computed from every by-value input the argument bound to parameter `name` is computed from.
+func coveredAtCallers(p *core.Prog, fn *ssa.Function, name string, keyParams map[*ssa.Parameter]bool) bool {
+	qi := paramIndex(fn, name)
+	if qi < 0 {
+		return false
+	}
+	sites := p.Callers(fn)
+	if len(sites) == 0 {
+		return false
+	}
+	for _, st := range sites {
+		c, ok := st.Site.(ssa.CallInstruction)
+		if !ok || core.CalleeFn(c) != fn {
+			return false // used as a value: call sites unknown
+		}
+		dq := dataDeps(core.CallArg(c, qi))
+		covered := false
+		for kp := range keyParams {
+			ki := paramIndex(fn, kp.Name())
+			if ki < 0 {
+				continue
+			}
+			dk := dataDeps(core.CallArg(c, ki))
+			if os.Getenv("RCVERIF_DEBUG_C18") != "" {
+				fmt.Fprintln(os.Stderr, "C18dbg", name, kp.Name(), core.CallArg(c, qi), core.CallArg(c, ki), "dq", len(dq), "dk", len(dk))
+				for pr := range dq {
+					fmt.Fprintln(os.Stderr, "  dq", pr.Name(), valueParam(pr.Type()), dk[pr])
+				}
+			}
+			all := true
+			for pr := range dq {
+				if valueParam(pr.Type()) && !dk[pr] {
+					all = false
+				}
+			}
+			if all {
+				covered = true
+				break
+			}
+		}
+		if !covered {
+			return false
+		}
+	}
+	return true
+}
+
+func c18R4(p *core.Prog, r *core.Report) {
+	const rule = "C18.R4"
+	r.Rule(rule, "memoisation is sound: for every store into a package-level map of cmd/regsync, each by-value parameter the stored value is computed from is also an input of the key", 1)
+	n := 0
+	for _, fn := range pkgFuncs(p, "cmd/regsync") {
+		lab := labeler{}
+		for _, b := range fn.Blocks {
+			for _, in := range b.Instrs {
+				mu, ok := in.(*ssa.MapUpdate)
+				if !ok {
+					continue
+				}
+				g := globalMap(mu.Map)
+				if g == nil {
+					continue
+				}
+				n++
+				label := lab.next("store into cache " + g.Name())
+				vd, kd := dataDeps(mu.Value), dataDeps(mu.Key)
+				var missing []string
+				for pr := range vd {
+					if valueParam(pr.Type()) && !kd[pr] {
+						missing = append(missing, pr.Name())
+					}
+				}
+				// a parameter that does not feed the key is still covered when, at every call site, a
+				// parameter that does feed the key is computed from everything it is computed from (the
+				// head of the reference is passed next to the reference: the key is its digest)
+				var still []string
+				for _, name := range missing {
+					if !coveredAtCallers(p, fn, name, kd) {
+						still = append(still, name)
+					}
+				}
+				missing = still
+				sort.Strings(missing)
+				if len(missing) == 0 {
+					r.Held(rule, p.FuncName(fn), label, p.Pos(mu.Pos()), fmt.Sprintf("value computed from %d parameter(s), all by-value ones feed the key", len(vd)))
+				} else {
+					r.Violated(rule, p.FuncName(fn), label, p.Pos(mu.Pos()), "the cached value is computed from parameter(s) "+strings.Join(missing, ", ")+" that the key does not depend on: a later call with a different value gets the entry stored for this one")
+				}
+			}
+		}
+	}
+	if n == 0 {
+		r.Note(rule, "cmd/regsync keeps no package-level map cache")
+		r.Held(rule, "cmd/regsync", "no process-wide cache", "", "nothing to key")
+	}
 }
